@@ -60,7 +60,8 @@ let cmd_c02 c =
   out "q_cw" (s_list s_natlists (all_clockwise_about l));
   out "q_ev" (s_list (s_list s_zpair) (all_edge_vectors l));
   (* the history-free values *)
-  let pures = List.map (fun (k, o) -> (k, o, pure_value l o))
+  let cp = compute_plaquettes l in      (* once; pure_value l o = pure_value_of (compute_plaquettes l) o by definition *)
+  let pures = List.map (fun (k, o) -> (k, o, pure_value_of cp o))
       [ ("pure0", GetPlaquettes); ("pure1", GetNPlaquettes); ("pure2", GetEdgeAdj); ("pure3", GetVertexAdj) ] in
   let pure_of o = let (_, _, v) = List.find (fun (_, o', _) -> o' = o) pures in v in
   List.iter (fun (k, _, v) -> out k (s_value v)) pures;
